@@ -18,9 +18,9 @@ BOUNDS = {
              "Q(n,.) for n<=9 and QQ(n,.) for n<=5 through the component-decomposition identity in a real variable x "
              "(all k at once) plus out-of-range k; number_of_connected_graphs on every graph with <=4 vertices x every "
              "vertex subset x focal vertex, all k at once as a polynomial identity in phi",
-    "thorough": "tau<=8, cycles n<=12, Q for n<=12, QQ for n<=6, number_of_connected_graphs on every graph with <=5 vertices",
+    "thorough": "tau<=9, cycles n<=14, Q for n<=14, QQ for n<=6, number_of_connected_graphs on every graph with <=5 vertices",
 }
-OUTSIDE = "tau>8, n>12; floating-point rounding; Q/QQ with non-integer arguments"
+OUTSIDE = "tau>9, n>14; floating-point rounding; Q/QQ with non-integer arguments"
 ASSUMPTIONS = [
     "floats are modelled as exact rationals",
     "lemma (Harary-Palmer): the decomposition by the component of a fixed vertex, "
@@ -41,11 +41,11 @@ def _small_graphs(nmax):
 def configs(tier):
     q = tier == "quick"
     cfgs = []
-    for tau in range(2, 7 if q else 9):
+    for tau in range(2, 7 if q else 10):
         cfgs.append({"name": f"clique-tau{tau}", "kind": "clique", "tau": tau})
-    for n in range(3, 9 if q else 13):
+    for n in range(3, 9 if q else 15):
         cfgs.append({"name": f"cycle-n{n}", "kind": "cycle", "n": n})
-    for n in range(1, 10 if q else 13):
+    for n in range(1, 10 if q else 15):
         cfgs.append({"name": f"Q-n{n}", "kind": "Q", "n": n, "fn": "Q"})
     for n in range(1, 6 if q else 7):
         cfgs.append({"name": f"QQ-n{n}", "kind": "Q", "n": n, "fn": "QQ"})
